@@ -26,7 +26,7 @@ package syncx
 //@   modifies abVal[result]
 //@   allocates
 //@ func ForAtomicBool
-//@   trusted
+//@   property C13 C02
 //@   ensures fresh(result) && abVal[result] == val
 //@   modifies abVal[result]
 //@   allocates
